@@ -8,15 +8,17 @@ META = dict(
           '2^16, 2^31, 2^32, 2^63 +-1, 2^64-k and counts whose byte size wraps 2^64}; six size-operand forms incl. negative ints and tainted. Oracle: three-valued '
           'interval model in 128-bit arithmetic; outcome + byte diff of own sandbox, other sandbox and arena against the reference effect; SIGSEGV = CRASH. '
           'non-trivial = model verdict other than must-proceed.'),
-    assumptions=['start addresses are classes, extents are what the checks depend on', 'in mask mode application ranges crossing a 64 KiB chunk boundary are unconstrained (the backend predicate rejects them)',
+    assumptions=['registry mode runs with two live sandboxes of the type under test and again with exactly one', 'start addresses are classes, extents are what the checks depend on', 'in mask mode application ranges crossing a 64 KiB chunk boundary are unconstrained (the backend predicate rejects them)',
                  'allocations above 1 MiB are refused by the harness allocator and count as allocation failure'],
 )
 
 
 def run(ctx):
-    specs = [('c10_mask', 'c10.cpp', dict(opt='-O1')), ('c10_reg', 'c10.cpp', dict(opt='-O1', defs=['C10_MODE=REGISTRY'])), ('c10_noop', 'c10n.cpp', dict(opt='-O1', access=True))]
+    specs = [('c10_mask', 'c10.cpp', dict(opt='-O1')), ('c10_reg', 'c10.cpp', dict(opt='-O1', defs=['C10_MODE=REGISTRY'])),
+             ('c10_reg1', 'c10.cpp', dict(opt='-O1', defs=['C10_MODE=REGISTRY', 'C10_SINGLE'])), ('c10_noop', 'c10n.cpp', dict(opt='-O1', access=True))]
     bins = ctx.build_many(specs)
     a = ['--thorough'] if ctx.thorough else []
     ctx.run(bins['c10_mask'], a)
     ctx.run(bins['c10_reg'], a)
+    ctx.run(bins['c10_reg1'], a)
     ctx.run(bins['c10_noop'], a, parts=1)
